@@ -665,8 +665,7 @@ pub fn judge_success_session(
             rep.count("C14", "observed_global_dedup_counter_exceeds_deduped_not_claimed", 1);
         }
         // a file all of whose chunks were stored by earlier finalized sessions visible through this shard cache:
-        // every chunk has a dedup answer, so whatever is stored as new was withheld by fragmentation prevention,
-        // and whatever is counted as withheld must be new -> the two counters are equal
+        // every chunk has a dedup answer, so (nearly) whatever is stored as new was withheld by fragmentation prevention
         if !spec.fresh_cache_global_dedup
             && !rf.chunks.is_empty()
             && rf.chunks.iter().all(|c| pre_session_stored.contains(&c.0))
@@ -675,13 +674,13 @@ pub fn judge_success_session(
             if m.new_chunks > 0 {
                 rep.count("C14", "fully_dedupable_files_with_withheld_chunks", 1);
             }
+            // Here every new chunk is expected to be a withheld one, so the sound inequality withheld <= new (judged above
+            // for every file) is tight and any over-count of withheld bytes trips it.  new > withheld is possible on correct
+            // code (a dedup answer of the first pass is skipped when a run found in the file's own pending data jumps over
+            // the index it was stored at; the chunk behind it is then stored as new without being "withheld") and is not
+            // claimed by the property: observed only.
             if m.new_chunks != m.defrag_prevented_dedup_chunks || m.new_bytes != m.defrag_prevented_dedup_bytes {
-                rep.violation(
-                    "C14",
-                    "file-withheld-vs-new-fully-dedupable",
-                    "for a fully dedupable file the bytes withheld by fragmentation prevention differ from the new bytes",
-                    fw(&format!("new {}c/{}B, withheld {}c/{}B", m.new_chunks, m.new_bytes, m.defrag_prevented_dedup_chunks, m.defrag_prevented_dedup_bytes)),
-                );
+                rep.count("C14", "observed_fully_dedupable_new_exceeds_withheld_not_claimed", 1);
             }
         }
         if m.defrag_prevented_dedup_chunks > 0 {
@@ -751,7 +750,11 @@ pub fn judge_success_session(
                 Ok(nr) => {
                     rep.count("C01", "ranges_downloaded", nr);
                 },
-                Err((sig, msg)) => rep.violation("C01", &sig, &msg, fw(&msg)),
+                Err((sig, msg)) => {
+                    rep.violation("C01", &sig, &msg, fw(&msg));
+                    // C16, last clause: a session whose calls all returned Ok leaves every file reconstructible
+                    rep.violation("C16", &format!("success-but-{sig}"), &msg, fw(&msg));
+                },
             }
         }
     }
@@ -965,6 +968,26 @@ pub fn gen_history(rng: &mut Rng, l: &Limits, o: &GenOpts) -> Vec<SessionSpec> {
                     segs.push(Seg::Copy { file: f, off: a, len: e - a });
                 }
                 segs
+            } else if !o.defrag_focus && si > 0 && !prior_lens_at_start.is_empty() && rng.chance(1, 8) {
+                // a new file made only of whole chunks of earlier sessions' files (1..3 aligned runs): every chunk deduplicates,
+                // so the file contributes a record but no new data (a session of such files has an empty final xorb)
+                let mut segs = Vec::new();
+                for _ in 0..rng.urange(1, 3) {
+                    let f = rng.usize_below(prior_lens_at_start.len());
+                    let b = refs::ref_chunk_boundaries(&prior[f], l.target, &gearhash_table());
+                    if b.len() < 3 {
+                        continue;
+                    }
+                    let nb = b.len() - 1;
+                    let s0 = rng.usize_below(nb);
+                    let k = rng.urange(1, nb - s0);
+                    let a = if s0 == 0 { 0 } else { b[s0 - 1] };
+                    segs.push(Seg::Copy { file: f, off: a, len: b[s0 + k - 1] - a });
+                }
+                if segs.is_empty() {
+                    segs.push(Seg::Fresh { seed: rng.next_u64(), len: rng.urange(1, 4 * l.target) });
+                }
+                segs
             } else if o.defrag_focus && si == 0 && files.is_empty() {
                 // a large fresh file for later sessions to interleave against
                 vec![Seg::Fresh { seed: rng.next_u64(), len: l.target * rng.urange(300, 600) }]
@@ -1054,6 +1077,21 @@ pub fn run(args: &Args, rep: &mut Report) {
                 });
             }
             hist.retain(|s| !s.files.is_empty());
+        }
+        // debugging aids: XV_ONLY_GIDX=a,b keeps only the files with these global indices; XV_SEQ=1 forces sequential single-worker sessions
+        if let Ok(v) = std::env::var("XV_ONLY_GIDX") {
+            let keep: Vec<usize> = v.split(',').filter_map(|x| x.parse().ok()).collect();
+            for s in hist.iter_mut() {
+                s.files.retain(|f| keep.contains(&f.gidx));
+            }
+            hist.retain(|s| !s.files.is_empty());
+        }
+        if std::env::var("XV_SEQ").is_ok() {
+            for s in hist.iter_mut() {
+                s.concurrent = false;
+                s.workers = 1;
+                s.delay_seed = None;
+            }
         }
         let tmp = tempfile::tempdir().expect("tempdir");
         let d = Dirs { root: tmp.path().to_path_buf() };
